@@ -316,7 +316,7 @@ func c04Texts(confs [][2]string) string {
 
 func TestVerifC04(t *testing.T) {
 	out := vu.Open("C04")
-	out.ShardLen(25)
+	out.ShardLen(8)
 	rng := vu.NewRng(out.Seed ^ 0xC04)
 	leaves := c04Leaves()
 	type job struct {
@@ -329,13 +329,13 @@ func TestVerifC04(t *testing.T) {
 			jobs = append(jobs, job{l, p})
 		}
 	}
-	// quick: a seeded sample (every leaf at least 4 payloads); thorough: the full cross product
+	// quick: a seeded sample (3 payloads per leaf, rotating with the seed); thorough: the full cross product
 	if !out.Thorough() {
 		rng.Shuffle(len(jobs), func(i, j int) { jobs[i], jobs[j] = jobs[j], jobs[i] })
 		per := map[string]int{}
 		var sel []job
 		for _, j := range jobs {
-			if per[j.leaf.name] < 5 {
+			if per[j.leaf.name] < 3 {
 				per[j.leaf.name]++
 				sel = append(sel, j)
 			}
